@@ -39,4 +39,12 @@ def ProperInts (i : Image) : Prop :=
 def composeNorm (c : Compose) : Compose :=
   if c.label.truthy then { c with final := .bool c.final.truthy } else { c with label := .none, final := .bool false }
 
+/-- the path of an image as the per-cell sort sees it -/
+def pathStr (i : Image) : Str := match i.path with | .str s => s | _ => []
+
+/-- inside every (variant, arch) cell the filed images have pairwise distinct paths (the writer sorts a cell by path
+only, and a cell is a Python set: with equal paths the order of the two entries would depend on set iteration) -/
+def DistinctPaths (cs : Cells) : Prop :=
+  ∀ v a, (((triples cs).filter fun t => t.1 == v && t.2.1 == a).map fun t => pathStr t.2.2).Nodup
+
 end PM.Spec
